@@ -1,6 +1,166 @@
-/- stub: property C04 has no model driver yet -/
+import ActixModel.Util
+import ActixModel.Model.Exec
+/-
+Line-protocol driver for C04: one case = a space separated token list (grammar: see
+`harness/src/props/c04.rs`); output = `<outcome>[/probe] acc=<n> calls=<n> sd=<0|1> tr=<trace>`.
+-/
 namespace ActixModel.Drv.C04
+open ActixModel.Util ActixModel.DispWake ActixModel.Exec
 
-def run (_line : String) : String := "unimplemented"
+def natIn (s : String) (lo hi : Nat) : Option Nat :=
+  if s.isEmpty || !(s.toList.all Char.isDigit) then none
+  else match s.toNat? with
+    | some n => if lo ≤ n ∧ n ≤ hi then some n else none
+    | none => none
+
+def parseBSteps (s : String) : Option (List BStep) :=
+  if s.isEmpty then some []
+  else (s.splitOn ".").mapM fun it =>
+    if it == "p" then some BStep.selfPend
+    else if it == "q" then some BStep.extPend
+    else if it == "e" then some BStep.err
+    else (natIn it 1 200000).map BStep.chunk
+
+def parseHSteps (s : String) : Option (List HStep) :=
+  if s == "-" then some []
+  else s.toList.mapM fun c =>
+    match c with
+    | 'p' => some HStep.selfPend | 'q' => some HStep.extPend | 'r' => some HStep.readOne
+    | 'a' => some HStep.readAll | 'd' => some HStep.drop | 'm' => some HStep.move | _ => none
+
+def parseCSteps (s : String) : Option (List CStep) :=
+  s.toList.mapM fun c =>
+    match c with
+    | 'r' => some CStep.read | 'd' => some CStep.drop | _ => none
+
+def dropS (s : String) (n : Nat) : String := (s.drop n).toString
+
+def parseReq (tok : String) : Option Req := do
+  let p := tok.splitOn ":"
+  if p.length < 5 || p.length > 6 then none
+  let hl ← natIn (p.getD 1 "") 0 100000000
+  let b := p.getD 2 ""
+  let body ←
+    if b == "n" then some ReqBody.none
+    else if b.startsWith "s" then (natIn (dropS b 1) 1 400000).map ReqBody.sized
+    else if b.startsWith "c" then
+      let cs := dropS b 1
+      if cs.isEmpty then some (ReqBody.chunked [])
+      else ((cs.splitOn ".").mapM fun c => natIn c 1 400000).map ReqBody.chunked
+    else none
+  let hs ← parseHSteps (p.getD 3 "")
+  let r := p.getD 4 ""
+  let resp ←
+    if r == "N" then some RespKind.none
+    else if r == "Z" then some RespKind.zero
+    else if r.startsWith "S" then do
+      let st ← parseBSteps (dropS r 1)
+      if st.any (fun x => match x with | .chunk _ => true | _ => false) then some (RespKind.sized st) else none
+    else if r.startsWith "C" then (parseBSteps (dropS r 1)).map RespKind.stream
+    else none
+  let cs ← if p.length == 6 then parseCSteps (p.getD 5 "") else some []
+  some { headLen := hl, body := body, hsteps := hs, resp := resp, csteps := cs }
+
+structure Case where
+  cfg : Cfg := {}
+  reqs : List Req := []
+  rops : List ROp := []
+  wops : List WOp := []
+  fops : List Bool := []
+  sops : List Bool := []
+  ev : List Src := []
+
+def parseTok (c : Case) (tok : String) : Option Case :=
+  if tok.startsWith "ka=" then
+    let v := dropS tok 3
+    if v == "os" then some { c with cfg := { c.cfg with kaEnabled := true, kaMs := none } }
+    else if v == "off" then some { c with cfg := { c.cfg with kaEnabled := false, kaMs := none } }
+    else (natIn v 1 99).map fun n => { c with cfg := { c.cfg with kaEnabled := true, kaMs := some (n * 1000) } }
+  else if tok.startsWith "D=" then
+    (natIn (dropS tok 2) 0 99).map fun n => { c with cfg := { c.cfg with discMs := if n = 0 then none else some (n * 1000) } }
+  else if tok.startsWith "T=" then
+    (natIn (dropS tok 2) 0 99).map fun n => { c with cfg := { c.cfg with headMs := if n = 0 then none else some (n * 1000) } }
+  else if tok.startsWith "wbs=" then
+    (natIn (dropS tok 4) 1 1048576).map fun n => { c with cfg := { c.cfg with wbs := n } }
+  else if tok.startsWith "q=" then
+    (natIn (dropS tok 2) 1 1024).map fun n => { c with cfg := { c.cfg with quantum := n } }
+  else if tok.startsWith "hc=" then
+    some { c with cfg := { c.cfg with halfClosed := dropS tok 3 == "1" } }
+  else if tok.startsWith "Q:" then
+    (parseReq tok).map fun q => { c with reqs := c.reqs ++ [q] }
+  else if tok.startsWith "E:" then
+    ((dropS tok 2).toList.mapM Src.ofChar).map fun xs => { c with ev := c.ev ++ xs }
+  else if tok == "RP" then some { c with rops := c.rops ++ [.barrier] }
+  else if tok == "RE" then some { c with rops := c.rops ++ [.eof] }
+  else if tok == "RX" then some { c with rops := c.rops ++ [.reset] }
+  else if tok == "RZ" then some { c with rops := c.rops ++ [.silent] }
+  else if tok == "WP" then some { c with wops := c.wops ++ [.barrier] }
+  else if tok == "W0" then some { c with wops := c.wops ++ [.zero] }
+  else if tok == "FP" then some { c with fops := c.fops ++ [true] }
+  else if tok == "FK" then some { c with fops := c.fops ++ [false] }
+  else if tok == "SP" then some { c with sops := c.sops ++ [true] }
+  else if tok == "SK" then some { c with sops := c.sops ++ [false] }
+  else if tok.startsWith "R" then
+    (natIn (dropS tok 1) 1 1000000000).map fun n => { c with rops := c.rops ++ [.bytes n] }
+  else if tok.startsWith "W" then
+    (natIn (dropS tok 1) 1 1000000000).map fun n => { c with wops := c.wops ++ [.accept n] }
+  else none
+
+def parseCase (line : String) : Option Case :=
+  (words line).foldlM parseTok {}
+
+/-- length of the shortest head the harness can build for request `i` (`c04_sim.rs` `build_head`) -/
+def minHeadLen (i : Nat) (body : ReqBody) : Nat :=
+  (match body with | .none => 3 | _ => 4) + decLen i + 13 +
+  (match body with
+   | .none => 0
+   | .sized n => 16 + decLen n + 2
+   | .chunked _ => 28) + 7
+
+def headsOk : Nat → List Req → Bool
+  | _, [] => true
+  | i, q :: qs => decide (minHeadLen i q.body ≤ q.headLen) && headsOk (i + 1) qs
+
+def stepCount (q : Req) : Nat :=
+  q.hsteps.length + q.csteps.length +
+  (match q.resp with | .sized s => s.length | .stream s => s.length | _ => 0)
+
+def showErr : ErrKind → String
+  | .ioReset => "io:ConnectionReset"
+  | .writeZero => "io:WriteZero"
+  | .body => "body"
+  | .disconnectTimeout => "disconnect-timeout"
+  | .tooLarge => "parse:too-large"
+  | .fuel => "MODEL-OUT-OF-FUEL"
+
+def traceStr (tr : List String) : String :=
+  let cap := 160
+  if tr.length ≤ cap then joinWith "," tr
+  else joinWith "," (tr.take cap) ++ ",+" ++ toString (tr.length - cap)
+
+def run (line : String) : String :=
+  match parseCase line with
+  | none => "bad-case"
+  | some c =>
+    if c.reqs.length > 40 || !headsOk 0 c.reqs then "bad-case"
+    else
+      let e : Env := { cfg := c.cfg, reqs := c.reqs }
+      let segs := wireSegs 0 c.reqs
+      let bigFuel := 64 + 8 * (segs.length + (c.reqs.map stepCount).foldl (· + ·) 0 +
+        c.rops.length + c.wops.length + c.fops.length + c.sops.length + c.ev.length)
+      let w : World :=
+        { rops := c.rops, wireLeft := segsSize segs, wops := c.wops, fops := c.fops, sops := c.sops,
+          chans := List.replicate c.reqs.length {} }
+      let s0 : Sys := { d := D.init c.cfg c.reqs, w := w, ev := c.ev }
+      let (o, s) := Exec.run e bigFuel (maxPolls + 2) s0
+      let q := fun (_ : Unit) => if probe e bigFuel s then "/progress-on-spurious-poll" else "/quiescent"
+      let os := match o with
+        | .ok => "ok"
+        | .err k => "err:" ++ showErr k
+        | .idle => "idle" ++ q ()
+        | .stalled => "STALLED" ++ q ()
+        | .spin => "SPIN"
+      os ++ " lw=" ++ (match s.lw with | some k => toString k | none => "-") ++ " acc=" ++ toString s.w.accepted ++ " calls=" ++ toString s.w.calls ++
+        " sd=" ++ (if s.w.shutdownDone then "1" else "0") ++ " tr=" ++ traceStr s.trace.reverse
 
 end ActixModel.Drv.C04
